@@ -20,12 +20,18 @@ namespace XotModel
 
 /-! ### `unresolved_namespaces` on a static tree -/
 
-/-- The namespaces of an element's own name and attribute names that are not known on top of
-    the stack (body of the `NodeEdge::Start` arm). -/
+def exceptIsError {ε α : Type} : Except ε α → Bool
+  | .ok _ => false
+  | .error _ => true
+
+/-- The namespaces of an element's own name and attribute names that cannot be written with the
+    declarations on top of the stack (body of the `NodeEdge::Start` arm):
+    `element_prefix(name).is_err()` / `attribute_prefix(name).is_err()` — names in no namespace
+    and in the XML namespace always can, an attribute name needs a non-empty prefix. -/
 def unresolvedHere (env : Env) (s : FStack) (name : Nat) (attrNames : List Nat) : List Nat :=
-  (if s.isNamespaceKnown (env.nsOfName name) then [] else [env.nsOfName name]) ++
+  (if exceptIsError (s.elementPrefix env name) then [env.nsOfName name] else []) ++
   attrNames.filterMap (fun a =>
-    if s.isNamespaceKnown (env.nsOfName a) then none else some (env.nsOfName a))
+    if exceptIsError (s.attributePrefix env a) then some (env.nsOfName a) else none)
 
 mutual
   /-- `unresolved_namespaces(node)`: `traverse` (edges of attribute / namespace nodes are filtered
